@@ -178,6 +178,11 @@ def _arg(env, v, world=None, node_id=None, label="", self_obj=None):
             return a
         if "$attr" in v:
             return getattr(env[v["$attr"][0]], v["$attr"][1])
+        if "$cls" in v:
+            import importlib
+
+            mod, _, name = v["$cls"].rpartition(".")
+            return getattr(importlib.import_module(mod), name)
         return {k: _arg(env, x, world, node_id, label, self_obj) for k, x in v.items()}
     return v
 
@@ -221,6 +226,8 @@ def perform(env, target_id, q, world=None, node_id=None):
     if t == "item":
         k = q["key"]
         if isinstance(k, list):
+            if k and isinstance(k[0], list):
+                return obj[tuple(slice(a, b) for a, b in k)]
             return obj[slice(k[0], k[1])]
         return obj[k]
     if t == "copy":
@@ -291,14 +298,45 @@ def _odd(rng, hi=5):
     return rng.choice([k for k in (1, 3, 5) if k <= hi])
 
 
-def curated_calls(obj, rng, nodes_by_type):
+def _frame(o):
+    """(native shape, pixel scales) of the mask an object lives on, from plain attributes only (no property of the library is read)"""
+    m = o if type(o).__name__ in ("Mask2D", "Mask1D") else getattr(o, "__dict__", {}).get("mask")
+    arr = getattr(m, "__dict__", {}).get("_array") if m is not None else None
+    if arr is None:
+        return None
+    try:
+        npix = int(arr.size - np.count_nonzero(arr))
+    except Exception:  # noqa: BLE001
+        npix = -1
+    return (tuple(arr.shape), tuple(getattr(m, "__dict__", {}).get("pixel_scales") or ()), npix)
+
+
+def curated_calls(obj, rng, nodes_by_type, env=None):
     """Candidate query calls (results are values to compare, not new nodes).  Pure function of (obj type/shape, rng)."""
     tn = type(obj).__name__
     out = []
     kshape = _T(_odd(rng), _odd(rng))
+    own_frame = _frame(obj)
 
     def pick(*types):
+        """an argument node of one of the types; three times in four one that lives on the receiver's own frame (same native shape) when
+        there is one - an argument of another shape mostly exercises the library's error paths"""
         ids = [i for t in types for i in nodes_by_type.get(t, [])]
+        if not ids:
+            return None
+        if env is not None and own_frame is not None and rng.random() < 0.75:
+            fr = {i: _frame(env[i]) for i in ids if i in env}
+            same = [i for i in ids if fr.get(i) and fr[i][0] == own_frame[0] and fr[i][2] == own_frame[2]] or [i for i in ids if fr.get(i) and fr[i][0] == own_frame[0]]
+            if same:
+                return rng.choice(same)
+        return rng.choice(ids)
+
+    def pick_where(pred, *types):
+        ids = [i for t in types for i in nodes_by_type.get(t, [])]
+        if env is not None:
+            good = [i for i in ids if i in env and pred(env[i])]
+            if good and rng.random() < 0.8:
+                return rng.choice(good)
         return rng.choice(ids) if ids else None
 
     if tn == "Mask2D":
@@ -343,7 +381,7 @@ def curated_calls(obj, rng, nodes_by_type):
             out.append({"t": "call", "name": "convolved_array_from", "kw": {"array": {"$node": a}}})
         m = pick("Mask2D")
         if a and m:
-            out.append({"t": "call", "name": "convolved_array_with_mask_from", "kw": {"array": {"$node": a}, "mask": {"$node": m}}})
+            out.append({"t": "call", "name": "convolved_array_with_mask_from", "kw": {"array": {"$attr": [a, "native"]}, "mask": {"$node": m}}})
     if tn == "Grid2D":
         # "programs": a user function evaluated through the grid's over-sampler (seeded centre / scale: different functions
         # have different per-pixel convergence in the iterative scheme)
@@ -429,8 +467,14 @@ def curated_calls(obj, rng, nodes_by_type):
         if e:
             out.append({"t": "fn", "name": "preprocess.data_eps_with_poisson_noise_added", "kw": {"data_eps": {"$abs": {"$self": True}}, "exposure_time_map": {"$const_like": [{"$self": True}, 300.0]}, "seed": seed}})
     if tn in ("Overlay", "Hilbert", "KMeans"):
-        m = pick("Mask2D")
-        a = pick("Array2D")
+        # the Hilbert mesh asks for a circular mask with one pixel scale: prefer square frames with equal scales
+        def squareish(o):
+            f = _frame(o)
+            return bool(f and len(f[0]) == 2 and f[0][0] == f[0][1] and len(f[1]) == 2 and f[1][0] == f[1][1])
+
+        m = pick_where(squareish, "Mask2D")
+        mf_ = _frame(env[m]) if (env is not None and m in env) else None
+        a = pick_where(lambda o: mf_ is not None and (_frame(o) or (None,))[0] == mf_[0], "Array2D")
         if m:
             out.append({"t": "call", "name": "image_plane_mesh_grid_from", "kw": {"mask": {"$node": m}, "adapt_data": {"$node": a} if a else None}})
             out.append({"t": "call", "name": "image_plane_mesh_grid_from", "kw": {"mask": {"$node": m}, "adapt_data": {"$abs": {"$node": a}} if a else None}})
@@ -458,7 +502,9 @@ def curated_calls(obj, rng, nodes_by_type):
                        "set_curvature_matrix", "set_regularization_matrix_and_term"):
                 out.append({"t": "call", "name": nm, "kw": {"fit_0": {"$node": f0}, "fit_1": {"$node": f1}}})
     if tn in ("MapperRectangular", "MapperDelaunay"):
-        out.append({"t": "call", "name": "pixel_signals_from", "kw": {"signal_scale": rng.choice([0.5, 1.0, 2.0])}})
+        has_adapt = getattr(getattr(obj, "__dict__", {}).get("mapper_grids"), "__dict__", {}).get("adapt_data") is not None
+        if has_adapt or rng.random() < 0.2:
+            out.append({"t": "call", "name": "pixel_signals_from", "kw": {"signal_scale": rng.choice([0.5, 1.0, 2.0])}})
         a = pick("Array2D")
         if a:
             out.append({"t": "call", "name": "mapped_to_source_from", "kw": {"array": {"$node": a}}})
@@ -468,6 +514,11 @@ def curated_calls(obj, rng, nodes_by_type):
         if isinstance(n, int) and n > 0:
             vals = [prng.fhex(rng.uniform(0.0, 2.0)) for _ in range(n)]
             out.append({"t": "call", "name": "interpolated_array_from", "kw": {"values": {"$arr": vals}, "shape_native": _T(rng.randrange(2, 6), rng.randrange(2, 6))}})
+        if isinstance(n, int) and n > 1:
+            # groups of several mesh pixels, flat and nested (the forms the docstring describes)
+            grp = [rng.randrange(n) for _ in range(rng.randrange(2, 4))]
+            out.append({"t": "call", "name": "pix_indexes_for_slim_indexes", "kw": {"pix_indexes": grp}})
+            out.append({"t": "call", "name": "pix_indexes_for_slim_indexes", "kw": {"pix_indexes": [grp, [rng.randrange(n)], [rng.randrange(n) for _ in range(2)]]}})
         if getattr(obj, "regularization", None) is not None:
             out.append({"t": "call", "name": "regularization.regularization_matrix_from", "kw": {"linear_obj": {"$self": True}}})
             out.append({"t": "call", "name": "regularization.regularization_weights_from", "kw": {"linear_obj": {"$self": True}}})
@@ -496,6 +547,40 @@ def curated_calls(obj, rng, nodes_by_type):
                     "kw": {"coordinates": {"$list": [_T(rng.uniform(-2, 2), rng.uniform(-2, 2)) for _ in range(rng.randrange(1, 3))]}, "distance": rng.choice([0.6, 1.1, 2.0])}})
         out.append({"t": "call", "name": "distances_to_coordinate_from", "kw": {"coordinate": c}})
         out.append({"t": "call", "name": "extent_with_buffer_from", "kw": {"buffer": 1e-8}})
+    if tn in ("Array2D", "Kernel2D", "Grid2D", "VectorYX2D", "Array1D", "Grid1D", "Grid2DIrregular", "ArrayIrregular", "Visibilities", "VisibilitiesNoiseMap",
+              "Mesh2DRectangular", "Mesh2DDelaunay", "Mesh2DVoronoi", "Mask2D", "Mask1D"):
+        # the reductions every structure forwards to its array
+        out.append({"t": "call", "name": rng.choice(["max", "min", "sum", "all"]), "kw": {}})
+    if tn in ("Grid2D", "Grid2DIrregular"):
+        g = pick(tn)
+        if g:
+            out.append({"t": "call", "name": "grid_2d_via_deflection_grid_from", "kw": {"deflection_grid": {"$node": g}}})
+    if tn == "Grid2DIrregular":
+        g = pick("Grid2DIrregular")
+        if g:
+            out.append({"t": "call", "name": "grid_of_closest_from", "kw": {"grid_pair": {"$node": g}}})
+    if tn in ("MapperRectangular", "MapperDelaunay"):
+        n = getattr(obj, "params", None)
+        if isinstance(n, int) and n > 0:
+            vals = [prng.fhex(float((3 * i) % 7) - 1.0) for i in range(n)]
+            out.append({"t": "call", "name": "extent_from", "kw": {"values": {"$arr": vals}, "zoom_to_brightest": rng.random() < 0.7, "zoom_percent": rng.choice([None, 0.5])}})
+    if tn in ("InversionImagingMapping", "InversionImagingWTilde", "InversionInterferometerMapping"):
+        cls = rng.choice(["autoarray.inversion.pixelization.mappers.abstract.AbstractMapper", "autoarray.inversion.regularization.abstract.AbstractRegularization",
+                          "autoarray.inversion.linear_obj.func_list.AbstractLinearObjFuncList", "autoarray.inversion.linear_obj.linear_obj.LinearObj"])
+        out.append({"t": "call", "name": rng.choice(["has", "total", "param_range_list_from"]), "kw": {"cls": {"$cls": cls}}})
+    if tn in ("Hilbert", "KMeans"):
+        a = pick("Array2D")
+        if a:
+            out.append({"t": "call", "name": "weight_map_from", "kw": {"adapt_data": {"$node": a}}})
+            out.append({"t": "call", "name": "weight_map_from", "kw": {"adapt_data": {"$abs": {"$node": a}}}})
+    if tn in ("OverSamplingUniform", "OverSamplingIterate"):
+        m = pick("Mask2D")
+        if m:
+            out.append({"t": "call", "name": "over_sampler_from", "kw": {"mask": {"$node": m}}})
+    if tn == "Convolver":
+        a = pick("Array2D")
+        if a:
+            out.append({"t": "call", "name": "convolve_image_no_blurring_interpolation", "kw": {"image": {"$node": a}}})
     if tn in ("Imaging",):
         pass
     return [q for q in out if q is not None]
@@ -526,6 +611,8 @@ def derivations(obj, rng, nodes_by_type):
         out.append({"t": "copy"})
         out.append({"t": "deepcopy"})
         out.append({"t": "call", "name": "copy", "kw": {}})
+        if not tn.startswith(("Mask", "Visibilities")):
+            out.append({"t": "call", "name": "astype", "kw": {"dtype": rng.choice(["float32", "float64"])}})
         n = 0
         try:
             n = len(obj)
@@ -565,6 +652,17 @@ def derivations(obj, rng, nodes_by_type):
         out.append({"t": "prop", "name": "over_sampler"})
     if tn == "Mask2D":
         out.append({"t": "call", "name": "invert", "kw": {}})
+        # masks combined and cut the way arrays are: a union / intersection with another mask, a window of rows and columns
+        other = pick("Mask2D")
+        if other:
+            out.append({"t": "op", "name": rng.choice(["add", "mul"]), "other": {"$node": other}})
+        try:
+            hh, ww = (int(x) for x in obj.shape_native)
+        except Exception:  # noqa: BLE001
+            hh = ww = 0
+        if hh >= 3 and ww >= 3:
+            y0, x0 = rng.randrange(0, 2), rng.randrange(0, 2)
+            out.append({"t": "item", "key": [[y0, hh - rng.randrange(0, 2)], [x0, ww - rng.randrange(0, 2)]]})
         out.append({"t": "call", "name": "resized_from", "kw": {"new_shape": _T(rng.randrange(1, 11), rng.randrange(1, 11))}})
         out.append({"t": "call", "name": "rescaled_from", "kw": {"rescale_factor": rng.choice([0.5, 2.0])}})
         for p in ("derive_mask", "derive_indexes", "derive_grid", "geometry"):
